@@ -42,8 +42,25 @@ class Model:
                     todo.append((lab[1], lab[2]))
         return self.auts
 
+    def add_driver(self, func, spec_text):
+        """module-level entry point analysed like a method; its mapped expression is given explicitly"""
+        key = (func.__name__ + "@module", ())
+        try:
+            self.auts[key] = self.ex.extract_function(func)
+        except Unsupported as e:
+            self.errors[key] = str(e)
+            return None
+        self._driver_spec = getattr(self, "_driver_spec", {})
+        self._driver_spec[key] = spec_text
+        for _s, _d, lab in self.auts[key].edges:
+            if lab[0] == "n":
+                self.reach([(lab[1], lab[2])])
+        return key
+
     # -- mapping ---------------------------------------------------------------------------------------------------------
     def mapped(self, key):
+        if key in getattr(self, "_driver_spec", {}):
+            return self.spec.parse(self._driver_spec[key])
         return self.spec.parse(self.map.spec_text(key[0], key[1], self.flags))
 
     def anchors(self):
@@ -102,7 +119,8 @@ class Model:
         return n
 
     def spec_regex(self, key, anchors):
-        r = self.spec.expand(self.mapped(key), anchors, top_once=True)
+        # a driver only brackets a method's nonterminal with SOF / EOF: nothing to expand; a method is compared one level down
+        r = self.spec.expand(self.mapped(key), anchors, top_once=not key[0].endswith("@module"))
         return r
 
     # -- obligations -------------------------------------------------------------------------------------------------------
